@@ -6,6 +6,13 @@
 // client transport, or speak the hop / stop protocols by hand (byzantine source / destination, exact
 // byte accounting). A three-valued reference model (model_test.go) says which answers are allowed.
 //
+// Tag / reservation atomicity: the relay's ConnManager is the real BasicConnMgr behind cmWrap, which can hold ONE
+// TagPeer call of the relay for a virtual millisecond while the tagged peer closes its connection (fault
+// "tag-race-*", a forced instance of what the scheduler's pause rule does); batches draw RESERVE(c) || DISCONNECT(c)
+// with no other action of c one time in three. After such a race (and after any RESERVE whose connection died under
+// it) a CONNECT to c is probed: NO_RESERVATION means the relay holds no reservation, and then c must carry no
+// "relay-reservation" tag (judgeConnect explains why this holds for every order on the unchanged tree).
+//
 // Warm / cold (drawn, 1 run in 3 cold): warm runs connect every client to the relay and let identify finish before
 // the history starts and reconnect an actor (and wait for quiescence) before its request; cold runs do neither: a
 // client only knows the relay's address, its request (client.Reserve / NewStream) dials by itself, so the relay
@@ -73,6 +80,9 @@
 //   panic placed at the "cannot write OK reply" exit (reach test)  panic
 //   disconnected(): early return on Connectedness != NotConnected  connect-admitted-without-reservation/after-disconnect (seeded by the
 //     (peer with only a limited relayed connection keeps its slot)  lead; needed X holding a direct AND a relayed connection)
+//   TagPeer("relay-reservation") moved after r.mx.Unlock()         connmgr-tag-left/relay-reservation/after-disconnect-race (seeded by the lead; needed
+//     (late tag after the peer's disconnect was handled)            the fault "relay task held inside TagPeer while the tagged peer disconnects" +
+//                                                                   the oracle "NO_RESERVATION answered => no reservation tag", probed right after)
 // Not caught, equivalent: deadline not set on the destination stream only (the source stream's deadline ends the
 // circuit at the same instant and the reset is propagated to both ends).
 package c11
@@ -220,7 +230,7 @@ func run(t *testing.T, tape *simrt.Tape) *common.Outcome {
 	g := simrt.Gen{S: tape.G}
 	o := &common.Outcome{}
 	cfg := drawCfg(g)
-	w := &world{o: o, cfg: cfg, m: newModel(), disc: nil, leakReported: map[string]bool{}, touched: map[int]bool{}, everRsv: map[int]bool{}}
+	w := &world{o: o, cfg: cfg, m: newModel(), disc: nil, leakReported: map[string]bool{}, touched: map[int]bool{}, everRsv: map[int]bool{}, racedDisc: map[int]bool{}}
 	o.Logf("config: %s", cfg)
 	nontrivial := false
 
